@@ -26,7 +26,10 @@ R = Rules(
         "u(x) = min(x,6)+4 and advance = 1 block (BERT: len(sent payload)//1024 units) -- however the code spells "
         "it (stepwise while/for loop, one shift, conditional expressions, expanded helpers, tuple assignment).  "
         "The final block refuses 'more'/2.31 on every consistent way of leaving the loop (branch outcomes "
-        "accumulate literals, contradictory outcomes are not taken), three raising guards precede the Block2 "
+        "accumulate literals, contradictory outcomes are not taken); after a block that was not the last one an "
+        "acknowledged round leaves the loop only under conditions that exclude every 2.xx code (C05.h: the collected "
+        "conditions are read over the finite domain of the code byte, so is_successful(), class_, ranges and member "
+        "lists are the same fact); three raising guards precede the Block2 "
         "append, assembly errors are re-raised and "
         "reach response.set_exception.  C05.f is the same round evaluation at the BERT exponent, where "
         "block numbers count 1024-byte units exactly as at exponent 6 (RFC 8323 section 6), so the cursor must "
@@ -1220,6 +1223,66 @@ def bound_args(call, callee):
     return out
 
 
+def flag_names(fi):
+    """Locals of fi that are boolean flags: every binding in the function is a plain assignment `x = True` /
+    `x = False` (no parameter, no for / with / except / walrus / unpacking target, not declared nonlocal or global
+    anywhere inside).  The value of such a local at a test is the constant of the last assignment executed, so
+    the walks below carry it along a path instead of treating the test as a free condition -- which makes a loop
+    that is left through `done = True` / `while not done` the same thing as one left through `break`."""
+    shared = {n for st in ast.walk(fi.node) if isinstance(st, (ast.Nonlocal, ast.Global)) for n in st.names}
+    cands = {n.id for n in walk_no_nested(fi.node) if isinstance(n, ast.Name) and isinstance(n.ctx, ast.Store)}
+    shared |= {n.id for n in walk_no_nested(fi.node) if isinstance(n, ast.Name) and isinstance(n.ctx, ast.Del)}
+    out = set()
+    for nm in cands - shared - set(params(fi, skip_self=False)):
+        ws = writes_to_name(fi.node, nm)
+        if ws and all(_flag_assignment(w, {nm}) is not None for w in ws):
+            out.add(nm)
+    return out
+
+
+def _flag_assignment(st, flags):
+    """(name, value) when the statement is `<flag> = True/False`, else None."""
+    if isinstance(st, ast.Assign) and len(st.targets) == 1 and isinstance(st.targets[0], ast.Name) and st.targets[0].id in flags \
+            and isinstance(st.value, ast.Constant) and isinstance(st.value.value, bool):
+        return st.targets[0].id, st.value.value
+    if isinstance(st, ast.AnnAssign) and isinstance(st.target, ast.Name) and st.target.id in flags and isinstance(st.value, ast.Constant) and isinstance(st.value.value, bool):
+        return st.target.id, st.value.value
+    return None
+
+
+def _lit_mentions_name(l, name):
+    for x in l[1:]:
+        if isinstance(x, Poly):
+            if any(a == name or a.startswith(name + ".") for a in x.atoms()):
+                return True
+        elif isinstance(x, str) and (x == name or x.startswith(name + ".")):
+            return True
+    return False
+
+
+def flag_facts_at(r, nid):
+    """What is known about the boolean flags when CFG node nid executes: the value a dominating test of the flag
+    found (`while sending:` for the loop body) or a dominating assignment gave it, provided no other assignment of
+    the flag lies on a path from there to nid that does not pass the test / assignment again."""
+    cfg = r.cfg
+    out = set()
+    for f in sorted(r.flags):
+        ws = writes_to_name(r.fi.node, f)
+        wnodes = {n for w in ws for n in cfg.locate(w) if cfg.nodes[n].kind not in ("T", "F")}
+        cands = [(p, pol) for t, pol, p in cfg.guards(nid) if isinstance(t, ast.Name) and t.id == f]
+        for w in ws:
+            fa = _flag_assignment(w, {f})
+            cands.extend((n, fa[1]) for n in cfg.locate(w) if n in wnodes and n != nid and cfg.dominates(n, nid))
+        vals = set()
+        for p, v in cands:
+            between = cfg.reach({p}, avoid={p}) & (rreach(cfg, nid, avoid={p}) | {nid})
+            if not (between & (wnodes - {p})):
+                vals.add(v)
+        if len(vals) == 1:
+            out.add(("truth" if vals.pop() else "nottruth", f))
+    return frozenset(out)
+
+
 def _block1_roles(ctx):
     """Identify, by data flow only, the block cursor, the exponent variable, the
     message sent in a round, its request and its response in BlockwiseRequest._run."""
@@ -1265,7 +1328,10 @@ def _block1_roles(ctx):
     r.send_nid = cfg.loc1(r.send)
     # the local holding the message of the round is a role of its own ("what was sent"), whichever of the
     # two it is bound to: it is never replaced by its definitions
-    r.X = Expander(fi, opaque={r.blk})
+    # boolean flags are carried along the paths as facts (fact_walk) / values (RoundExec), not replaced by the set of
+    # constants that may reach a test
+    r.flags = flag_names(fi) - {r.blk, r.cursor, r.szx}
+    r.X = Expander(fi, opaque={r.blk} | r.flags)
     # its response: `x = await <request>.response`, the request being the call itself or a local bound to it
     r.resp = None
     for n in ast.walk(r.outer):
@@ -1746,6 +1812,11 @@ class RoundExec:
                     T |= tg
                     changed = True
         ctx.need(r.blk not in T and r.resp not in T, "_run: the message sent / its response are computed from the cursor")
+        self.bookkeeping = set(T)  # cursor, exponent and what is computed from them
+        # boolean flags are part of the state too: assignments bind them, and a test of a flag whose value is not
+        # known yet binds it on either outcome (so `done = True; continue` followed by `while not done` leaves)
+        self.flags = set(r.flags) - T
+        T = T | self.flags
         self.tracked = T
         self.live = rreach(cfg, r.call_nid) | rreach(cfg, r.send_nid) | {r.call_nid, r.send_nid}
 
@@ -1826,6 +1897,7 @@ class RoundExec:
         steps = 0
         while todo:
             nid, lab, env, sent = todo.pop()
+            refine = None
             steps += 1
             if steps > self.STEPS:
                 return out, True
@@ -1865,6 +1937,8 @@ class RoundExec:
                     continue
                 except (_Unknown, _Undecided):
                     nxt = [(d, l) for d, l in cfg.succ[nid] if l in ("T", "F")]
+                    if isinstance(nd.ast, ast.Name) and nd.ast.id in self.flags and nd.ast.id not in env:
+                        refine = nd.ast.id
             elif nd.kind in ("return", "raise", "exit", "rexit"):
                 continue
             else:
@@ -1877,11 +1951,14 @@ class RoundExec:
                     sent = True
                 nxt = [(d, l) for d, l in cfg.succ[nid] if l != "exc"]
             for d, l in nxt:
-                key = (d, l == "back", sent, _freeze(env))
+                env2 = dict(env)
+                if refine is not None and l in ("T", "F"):
+                    env2[refine] = l == "T"
+                key = (d, l == "back", sent, _freeze(env2))
                 if key in seen:
                     continue
                 seen.add(key)
-                todo.append((d, l, dict(env), sent))
+                todo.append((d, l, env2, sent))
         return out, False
 
 
@@ -1943,16 +2020,20 @@ def _judge_round(r, s, a, states, diverged):
     return fails
 
 
-def fact_walk(r, starts, tracked):
+def fact_walk(r, starts, tracked, fork=False, flags=None):
     """Consistent continuations of a round of the Block1 loop.  From the given (CFG node, facts) states the loop
     body is walked along non-exceptional edges; every branch outcome adds the literals it asserts (c05
     vocabulary, locals replaced by their definitions) to the facts of the state, and an outcome that contradicts
     the facts already collected is not taken -- so `if last and bad: raise` / `if last: break`, a named
     condition tested twice, nested ifs and guard clauses all yield the same states.  Tests over the tracked
-    bookkeeping locals (which change during the round) add nothing.  The facts concern one round: the walk
-    ends at the next cut / request.  Returns [(kind, node id, facts)] with kind in
-    'leave' (the loop is left normally / the function returns), 'next' (next round), 'raise'."""
+    bookkeeping locals (which change during the round) add nothing; an assignment of True / False to a boolean flag
+    (flag_names) replaces what is known about the flag.  The facts concern one round: the walk
+    ends at the next cut / request.  With fork=True an outcome that asserts a disjunction (`x in (A, B)` taken, a chained
+    comparison not taken, a local with several reaching definitions) continues once per disjunct instead of adding
+    nothing: every execution is still covered by a state whose facts hold in it.  Returns [(kind, node id, facts)]
+    with kind in 'leave' (the loop is left normally / the function returns), 'next' (next round), 'raise'."""
     cfg, X, N = r.cfg, r.X, r.N
+    flags = r.flags if flags is None else flags
     inside_ast = {id(n) for n in ast.walk(r.outer)}
 
     def inside(nid):
@@ -1977,9 +2058,11 @@ def fact_walk(r, starts, tracked):
                 except AnalysisError:
                     alts = []
                 if len(alts) == 1:
-                    got = alts[0]
+                    got = [alts[0]]
                 elif not alts:
                     got = False  # the outcome is impossible (decided by constants)
+                elif fork:
+                    got = list(dict.fromkeys(alts))
             lit_cache[pid_] = got
         return lit_cache[pid_]
 
@@ -2002,19 +2085,22 @@ def fact_walk(r, starts, tracked):
         if nd.kind in ("return", "exit") or not inside(nid):
             out.append(("leave", nid, facts))
             continue
+        fa = _flag_assignment(nd.ast, flags) if nd.kind == "stmt" and flags else None
+        if fa is not None:
+            # `flag = True`: whatever was known about the flag is replaced by its new value
+            facts = frozenset(l for l in facts if not _lit_mentions_name(l, fa[0])) | {("truth" if fa[1] else "nottruth", fa[0])}
         for d, lab in cfg.succ[nid]:
             if lab == "exc":
                 continue
-            nf = facts
+            nfs = [facts]
             if cfg.nodes[d].kind in ("T", "F") and nd.kind == "test":
                 L = lits_of(d)
                 if L is False:
                     continue
                 if L is not None:
-                    nf = simplify(set(facts) | set(L))
-                    if nf is None:
-                        continue
-            todo.append((d, nf))
+                    nfs = [x for x in (simplify(set(facts) | set(alt)) for alt in L) if x is not None]
+            for nf in nfs:
+                todo.append((d, nf))
     return out
 
 
@@ -2044,7 +2130,7 @@ def c(ctx):
                not (set(cfg.locate(w)) & unchecked), fi, w)
     # c3: mismatch raises (on every consistent continuation of a branch outcome that asserts the mismatch)
     ctx.floor("branches taken on a Block1 number mismatch", len(r.mism), 1)
-    tracked = RoundExec(ctx, r).tracked
+    tracked = RoundExec(ctx, r).bookkeeping
     for pid_ in sorted(r.mism):
         ends = []
         for alt in pseudo_lits(X, N, cfg, cfg.nodes[pid_]):
@@ -2094,7 +2180,7 @@ def c(ctx):
             return False
         return ("ne", norm._signnorm(Poly.atom(code) - Poly.atom(cont))) in fs or ("isnot", code, cont) in fs or ("isnot", cont, code) in fs
 
-    ends = fact_walk(r, [(d, frozenset()) for d, lab in cfg.succ[r.resp_nid] if lab != "exc"], tracked)
+    ends = fact_walk(r, [(d, flag_facts_at(r, r.resp_nid)) for d, lab in cfg.succ[r.resp_nid] if lab != "exc"], tracked)
     final_leaves = [(n, fs) for k, n, fs in ends if k == "leave" and (r.final in fs or ("is", r.final[1], "False") in fs)]
     ctx.floor("ways of completing the Block1 phase after the last block", len(final_leaves), 1)
     bad_more = [fs for _n, fs in final_leaves if not no_more(fs)]
@@ -2563,6 +2649,245 @@ def g_bert_sizes(ctx):
            detail="Max-Message-Size %s: BERT block of %s bytes" % (bad_fit[0], 1024 * (bad_fit[4] // 1024)) if bad_fit else None)
 
 
+# ===========================================================================
+# C05.h  the Block1 phase does not end on a successful acknowledgement of an intermediate block
+# ===========================================================================
+
+
+class CodeDomain:
+    """The literals (c05 vocabulary) a path has collected about ONE response code, read over the finite domain of
+    the code byte 0..255.  A literal is evaluated by the checker's own evaluator with the code chain bound to a
+    concrete value: comparisons with members of numbers.codes.Code (read from the class statement), arithmetic
+    on the code (`>> 5`, `// 32`, `% 32`), the properties and the argument-less predicates of Code (their bodies are
+    run by ConcreteRunner on the value) -- so `not code.is_successful()`, `code.class_ != 2`, `code >= 96 or
+    code < 64`, `code.class_ in (4, 5)` and `code in (BAD_REQUEST, ...)` are all the same kind of fact."""
+
+    def __init__(self, prog, fi, code_chain):
+        self.prog, self.fi, self.code = prog, fi, code_chain
+        ci = prog.cls("numbers.codes.Code")
+        self.members = {}
+        for name, expr in ci.attrs.items():
+            try:
+                v = norm.consteval(expr)
+            except (NormError, TypeError, ValueError):
+                continue
+            if isinstance(v, int) and not isinstance(v, bool):
+                self.members[name] = v
+        if len(self.members) < 8:
+            raise AnalysisError("numbers.codes.Code: members cannot be read from the class statement")
+        self.self_facts = {"self." + n: v for n, v in self.members.items()}
+        self.props = {n: m for n, m in ci.methods.items() if _is_property(m)}
+        self.preds = {n: m for n, m in ci.methods.items() if not m.node.decorator_list and not m.is_async and not params(m) and not n.startswith("__")}
+        self._runners = {}
+        self._facts = {}
+        self._atoms = {}
+        self._locals = {n.id for n in ast.walk(fi.node) if isinstance(n, ast.Name) and isinstance(n.ctx, ast.Store)} | set(params(fi, skip_self=False))
+        self._E = RoundEval(fi, {}, self._locals)
+        self._E.lenv = {}  # atoms are canonical already: locals are not read through their definitions
+        self._lit = {}
+        self._pvals = {}
+
+    def _run(self, m, c, props=None):
+        if m.short not in self._runners:
+            self._runners[m.short] = ConcreteRunner(m, self.prog)
+        sf = dict(self.self_facts, self=c)
+        for n, v in (self._props(c) if props is None else props).items():
+            sf["self." + n] = v
+        return self._runners[m.short].run(sf)
+
+    def _props(self, c):
+        """{property name: value} of Code at value c, for the properties whose bodies the evaluator can run (a
+        property may read another one: evaluated to a fixed point)."""
+        if c not in self._pvals:
+            vals = {}
+            for _round in range(3):
+                before = len(vals)
+                for n, m in self.props.items():
+                    if n in vals:
+                        continue
+                    try:
+                        v = self._run(m, c, vals)
+                    except AnalysisError:
+                        continue
+                    if v is None or isinstance(v, (int, str)):
+                        vals[n] = v
+                if len(vals) == before:
+                    break
+            self._pvals[c] = vals
+        return self._pvals[c]
+
+    def facts(self, c):
+        if c not in self._facts:
+            f = {self.code: c}
+            for n, v in self._props(c).items():
+                f["%s.%s" % (self.code, n)] = v
+            self._facts[c] = f
+        return self._facts[c]
+
+    def mentions(self, text):
+        i = text.find(self.code)
+        while i >= 0:
+            before = text[i - 1] if i > 0 else " "
+            after = text[i + len(self.code)] if i + len(self.code) < len(text) else " "
+            if not (before.isalnum() or before in "_.") and not (after.isalnum() or after == "_"):
+                return True
+            i = text.find(self.code, i + 1)
+        return False
+
+    def _member_of(self, name):
+        """Value of a name / chain of the analysed module that denotes a member of Code, else None."""
+        if name.split(".")[0] in self._locals:
+            return None
+        try:
+            q = self.prog.resolve_in_module(self.fi.module, name)
+        except AnalysisError:
+            return None
+        if q and q.startswith("aiocoap.numbers") and q.split(".")[-1] in self.members:
+            return self.members[q.split(".")[-1]]
+        return None
+
+    def value(self, text, c):
+        """Value of an atom / expression text (the Normalizer's spelling) with the code bound to c; _Unknown /
+        _Undecided when it is not a function of the code alone."""
+        if text not in self._atoms:
+            try:
+                self._atoms[text] = ast.parse(text, mode="eval").body
+            except SyntaxError:
+                self._atoms[text] = None
+        e = self._atoms[text]
+        if e is None:
+            raise _Unknown("atom %s" % text)
+        facts = dict(self.facts(c))
+        for n in ast.walk(e):
+            if isinstance(n, (ast.Name, ast.Attribute)):
+                ch = chain(n)
+                if ch is not None and ch not in facts and not self.mentions(ch):
+                    v = self._member_of(ch)
+                    if v is not None:
+                        facts[ch] = v
+        E = self._E
+        E.facts = facts
+
+        def hook(call, fn, args, kw):
+            if fn in ("shr", "floordiv", "mod") and len(args) == 2 and not kw:  # the Normalizer's opaque operators
+                return _arith(fn, args[0], args[1])
+            if fn and not args and not kw and fn.startswith(self.code + ".") and fn[len(self.code) + 1:] in self.preds:
+                try:
+                    return self._run(self.preds[fn[len(self.code) + 1:]], c)
+                except AnalysisError as x:
+                    raise _Unknown(str(x))
+            raise _Unknown("call of %s" % (fn or "a computed function"))
+
+        E.call_hook = hook
+        try:
+            return _settle(E.ev(e, {}))
+        except _Raises as x:
+            raise _Unknown(str(x))
+
+    def _poly(self, p, c):
+        total = Fraction(0)
+        for mon, coef in p.t.items():
+            term = Fraction(coef)
+            for a, k in mon:
+                v = self.value(a, c)
+                if not _is_num(v):
+                    raise _Unknown("atom %s is not a number" % a)
+                term *= Fraction(int(v)) ** k
+            total += term
+        return total
+
+    def lit_mentions(self, l):
+        if len(l) == 2 and isinstance(l[1], Poly):
+            return any(self.mentions(a) for a in l[1].atoms())
+        return any(isinstance(x, str) and self.mentions(x) for x in l[1:])
+
+    def lit_value(self, l, c):
+        """Truth of one literal at code value c; None when the literal is not a function of the code alone."""
+        k = l[0]
+        try:
+            if len(l) == 2 and isinstance(l[1], Poly):
+                v = self._poly(l[1], c)
+                return {"lt": v < 0, "eq": v == 0, "ne": v != 0}.get(k)
+            if k in ("truth", "nottruth") and len(l) == 2:
+                t = self._E.truth(self.value(l[1], c))
+                return t if k == "truth" else not t
+            if len(l) == 3 and k in ("is", "isnot", "eq", "ne", "in", "notin"):
+                a, b = self.value(l[1], c), self.value(l[2], c)
+                if isinstance(a, Poly) or isinstance(b, Poly):
+                    return None
+                if k in ("in", "notin"):
+                    if not isinstance(b, (tuple, list, range)) or any(isinstance(x, Poly) for x in b):
+                        return None
+                    return (a in b) == (k == "in")
+                # members of an IntEnum are singletons per value: identity of two codes is equality of their values
+                return (a == b and type(a) is type(b)) == (k in ("is", "eq"))
+        except (_Unknown, _Undecided, AnalysisError):
+            return None
+        return None
+
+    def admits(self, lits, c):
+        """No literal of the conjunction is false at code value c.  A literal that mentions the code but cannot be
+        evaluated is refused (AnalysisError): guessing either way would be a false verdict."""
+        for l in lits:
+            if not self.lit_mentions(l):
+                continue
+            if (l, c) not in self._lit:
+                self._lit[(l, c)] = self.lit_value(l, c)
+            v = self._lit[(l, c)]
+            if v is None:
+                raise AnalysisError("_run: condition over the response code outside the evaluator's vocabulary: %s" % _lit_text(l))
+            if v is False:
+                return False
+        return True
+
+
+SUCCESS_CODES = range(2 << 5, 3 << 5)  # RFC 7252 section 5.9.1: class 2, 2.00 .. 2.31
+
+
+@R.clause("C05.h", "Block1 loop: after a block that was not the last one, an acknowledgement that carries a Block1 option completes the Block1 phase only when its code is an error (a 2.xx acknowledgement of an intermediate block, whatever its more-flag, is not the result of the request)")
+def h(ctx):
+    """Added after an independently written regression flattened the tail of the loop to
+    `if not (block1.more and code.is_successful()): break`: a server that processes the body block by block
+    acknowledges intermediate blocks with 2.xx and M=0 (RFC 7959 section 2.3), the client stopped after the first
+    block and reported success while the server held a truncated body.
+
+    Necessary condition: the bytes after the block just sent reach the server only if another round follows.  So
+    on every consistent way of leaving the loop normally in a round whose block was NOT the last one
+    (`<sent>.opt.block1.more` not refuted by the path) and whose response acknowledged it with a Block1 option (the
+    confirmed client gives up on a server that ignores the option altogether; that path is not judged), the
+    conditions collected on the path must exclude every 2.xx code -- only an error response may be passed on as the
+    final result of a partial upload.  Raising is always allowed.  The conditions are read over the finite domain
+    of the code byte (CodeDomain), whichever way they are spelled and ordered."""
+    r = _block1_roles(ctx)
+    fi, cfg = r.fi, r.cfg
+    tracked = RoundExec(ctx, r).bookkeeping
+    D = CodeDomain(ctx.prog, fi, r.resp + ".code")
+    ack = "%s.opt.block1" % r.resp
+    ends = fact_walk(r, [(d, flag_facts_at(r, r.resp_nid)) for d, lab in cfg.succ[r.resp_nid] if lab != "exc"], tracked, fork=True)
+    ctx.floor("continuations of a round of the Block1 loop", len(ends), 3)
+    ctx.need(any(k == "next" for k, _n, _fs in ends), "_run: no continuation of a round reaches the next block")
+
+    def last_block(fs):
+        return r.final in fs or ("is", r.final[1], "False") in fs
+
+    def unacknowledged(fs):
+        return ("is", ack, "None") in fs or ("nottruth", ack) in fs
+
+    leaves = [(n, fs) for k, n, fs in ends if k == "leave" and not last_block(fs) and not unacknowledged(fs)]
+    bad = []
+    for n, fs in leaves:
+        ok_codes = [c for c in SUCCESS_CODES if D.admits(fs, c)]
+        if ok_codes:
+            bad.append((fs, ok_codes))
+    detail = None
+    if bad:
+        fs, codes = bad[0]
+        detail = "the loop is left with code %d.%02d possible under %s" % (codes[0] >> 5, codes[0] & 31, _show(fs))
+    ctx.ob("after an intermediate block the Block1 phase completes only on an error response: a successful acknowledgement never ends the upload early",
+           not bad, fi, r.outer, detail=detail, construct="intermediate-block exits of the Block1 loop")
+    ctx.extra["block1_intermediate_exits_judged"] = len(leaves)
+
+
 F_PRO = "aiocoap/protocol.py"
 
 R.seed("C05.a", F_MSG, "more = True if end < len(self.payload) else False", "more = True if end <= len(self.payload) else False", "more flag on the final block")
@@ -2610,3 +2935,9 @@ R.seed("C05.e", F_PRO, "if initial_response.opt.block2.block_number != 0:", "if 
 R.seed("C05.a", F_MSG, "        if self.code.is_request():\n            return self.copy(payload=payload, mid=None, block1=blockopt)", "        if not self.code.is_request():\n            return self.copy(payload=payload, mid=None, block1=blockopt)", "descriptor options swapped between requests and responses")
 
 R.seed("C05.g", "aiocoap/transports/rfc8323common.py", "            return ((max_message_size - 128) // 1024) * 1024 + slack", "            return (max_message_size // 1024) * 1024 - 128 + slack", "payload size below 1024 for Max-Message-Size 1153..2047 while the exponent stays 7: empty BERT blocks for ever")
+R.seed("C05.h", F_PRO, "                if not blockresponse.code.is_successful():\n                    break\n", "                if blockresponse.code.is_successful():\n                    break\n",
+       "a successful acknowledgement of an intermediate block with M=0 ends the upload (truncated body reported as success)")
+R.seed("C05.h", F_PRO, "                    # ignoring (discarding) the successful intermediate result, waiting for a final one\n                    continue\n",
+       "                    break\n", "the Block1 phase ends on any acknowledgement without more-flag, successful or not")
+R.seed("C05.h", F_PRO, "                if not blockresponse.code.is_successful():\n                    break\n", "                if blockresponse.code != CONTINUE:\n                    break\n",
+       "only 2.31 keeps the upload going: a 2.04 acknowledgement of an intermediate block with M=0 is taken for the final result")
